@@ -3,11 +3,18 @@
    Cls.FromString(bs), [parse_into] = m.parse(bs) on an existing message, [load_delimited]) for
    EVERY byte string and every well-formed schema.  "Complete record" is the independent
    specification Model/C17Wire.v ([wpayload] / [wrecs] / [wrec]: tag, payload by wire type,
-   groups nested, any legal varint padding). *)
+   groups nested, any legal varint padding).
+   Second part (after the non-vacuity examples of the first): below the top level - ragged / cut / over-long
+   packed payloads, invalid UTF-8, nested payloads the nested class rejects (any depth), and the exact
+   acceptance criterion  parse accepts <-> [valid] / [valid_s]  (Model/C17Nested.v, Model/C17NestedTime.v).
+   No theorem of this file is partial. *)
 From BP Require Import Base.Prelude Model.Types Model.Varint Model.Float Model.Object Model.Encode Model.Decode.
 From BP Require Import Model.WellFormed Model.C17Typed Model.C17Wire Model.C17Step Spec.Varint.
 From BP Require Import Proofs.C17FieldP Proofs.C17TotalP Proofs.C17FloatP Proofs.C17MainP.
 From BP Require Import Proofs.C17ComposeP Proofs.C17Main2P.
+From BP Require Import Model.Utf8 Model.C17Nested Proofs.C17NestedP Proofs.C17NestedAcceptP Proofs.C17NestedMainP.
+From BP Require Import Model.Scalar Model.TimeCore Model.C17NestedTime Proofs.C17NestedTimeP.
+From BP Require Import gen.Tables.
 
 (* ---- termination: the fuel parse supplies (length of the input + 1) is never exhausted:
         every recursive call (nested message, map entry, Timestamp / Duration / wrapper, nested
@@ -287,3 +294,374 @@ Example C17_uint64_wide_witness :
   Ok (Obj 11 [PPlaceholder; PPlaceholder; PPlaceholder; PNone; PPlaceholder; PPlaceholder; PPlaceholder;
               PInt (2 ^ 70 - 1); PPlaceholder; PPlaceholder; PPlaceholder] true [] [Some 7%nat]).
 Proof. vm_compute. reflexivity. Qed.
+
+
+(* =====================================================================================================
+   Below the top level: a COMPLETE length-delimited record  tag ++ lb ++ d  (lb = the length varint of d)
+   of a KNOWN field whose wire type fits ([known_fit sc c nw = Some f]: number declared in class c, and
+   Message._wire_type_fits holds) whose payload d is not valid for the declared type makes parse raise,
+   whatever complete records [pre] precede it and whatever bytes [post] follow it.  Then the exact
+   acceptance criterion [valid] (Model/C17Nested.v).  All byte strings, all schemas, no bounds.
+   ===================================================================================================== *)
+
+(* (1) repeated fixed32 / sfixed32 / float (w = 4), fixed64 / sfixed64 / double (w = 8): a payload that is not
+       a whole number of elements.  (A length-delimited record fits such a type only on a repeated field.) *)
+Theorem C17_packed_ragged : forall sc c pre tag lb d post nw f w,
+  wrecs pre -> VarintRep nw tag -> tag_num nw <> 0 -> tag_wt nw = 2 -> VarintRep (Zlength d) lb ->
+  known_fit sc c nw = Some f -> fixed_width (fty f) = Some w -> Zlength d mod w <> 0 ->
+  exists e, parse sc c (pre ++ tag ++ lb ++ d ++ post) = Err e.
+Proof. exact (fun sc c pre tag lb d post nw f w Wp Rt Hn Hw Rl => packed_ragged_i sc pre tag lb d post nw f Wp Rt Hn Hw Rl (new sc c) w). Qed.
+Print Assumptions C17_packed_ragged.
+
+Theorem C17_packed_ragged_into : forall sc o pre tag lb d post nw f w,
+  wrecs pre -> VarintRep nw tag -> tag_num nw <> 0 -> tag_wt nw = 2 -> VarintRep (Zlength d) lb ->
+  known_fit sc (ocls o) nw = Some f -> fixed_width (fty f) = Some w -> Zlength d mod w <> 0 ->
+  exists e, parse_into sc o (pre ++ tag ++ lb ++ d ++ post) = Err e.
+Proof. exact (fun sc o pre tag lb d post nw f w Wp Rt Hn Hw Rl => packed_ragged_i sc pre tag lb d post nw f Wp Rt Hn Hw Rl o w). Qed.
+Print Assumptions C17_packed_ragged_into.
+
+(* (2) repeated varint-kind scalar (int32 .. sint64, bool, enum): the payload is a run of whole varints [good]
+       followed by a non-empty proper prefix [x] of a varint (it ends inside an element) ... *)
+Theorem C17_packed_varint_cut : forall sc c pre tag lb d post nw f good x n a y,
+  wrecs pre -> VarintRep nw tag -> tag_num nw <> 0 -> tag_wt nw = 2 -> VarintRep (Zlength d) lb ->
+  known_fit sc c nw = Some f -> tmem (fty f) WIRE_VARINT_TYPES = true ->
+  d = good ++ x -> varints good -> x <> [] -> VarintRep n a -> a = x ++ y -> y <> [] ->
+  exists e, parse sc c (pre ++ tag ++ lb ++ d ++ post) = Err e.
+Proof. exact (fun sc c pre tag lb d post nw f good x n a y Wp Rt Hn Hw Rl => packed_varint_cut_i sc pre tag lb d post nw f Wp Rt Hn Hw Rl (new sc c) good x n a y). Qed.
+Print Assumptions C17_packed_varint_cut.
+
+Theorem C17_packed_varint_cut_into : forall sc o pre tag lb d post nw f good x n a y,
+  wrecs pre -> VarintRep nw tag -> tag_num nw <> 0 -> tag_wt nw = 2 -> VarintRep (Zlength d) lb ->
+  known_fit sc (ocls o) nw = Some f -> tmem (fty f) WIRE_VARINT_TYPES = true ->
+  d = good ++ x -> varints good -> x <> [] -> VarintRep n a -> a = x ++ y -> y <> [] ->
+  exists e, parse_into sc o (pre ++ tag ++ lb ++ d ++ post) = Err e.
+Proof. exact (fun sc o pre tag lb d post nw f good x n a y Wp Rt Hn Hw Rl => packed_varint_cut_i sc pre tag lb d post nw f Wp Rt Hn Hw Rl o good x n a y). Qed.
+Print Assumptions C17_packed_varint_cut_into.
+
+(* ... or followed by ten bytes that all carry the continuation bit (an element of more than ten bytes),
+   whatever comes after them inside the payload *)
+Theorem C17_packed_varint_overlong : forall sc c pre tag lb d post nw f good hi rest,
+  wrecs pre -> VarintRep nw tag -> tag_num nw <> 0 -> tag_wt nw = 2 -> VarintRep (Zlength d) lb ->
+  known_fit sc c nw = Some f -> tmem (fty f) WIRE_VARINT_TYPES = true ->
+  d = good ++ hi ++ rest -> varints good -> length hi = 10%nat -> Forall (fun b => 128 <= Z_of_byte b) hi ->
+  exists e, parse sc c (pre ++ tag ++ lb ++ d ++ post) = Err e.
+Proof. exact (fun sc c pre tag lb d post nw f good hi rest Wp Rt Hn Hw Rl => packed_varint_overlong_i sc pre tag lb d post nw f Wp Rt Hn Hw Rl (new sc c) good hi rest). Qed.
+Print Assumptions C17_packed_varint_overlong.
+
+Theorem C17_packed_varint_overlong_into : forall sc o pre tag lb d post nw f good hi rest,
+  wrecs pre -> VarintRep nw tag -> tag_num nw <> 0 -> tag_wt nw = 2 -> VarintRep (Zlength d) lb ->
+  known_fit sc (ocls o) nw = Some f -> tmem (fty f) WIRE_VARINT_TYPES = true ->
+  d = good ++ hi ++ rest -> varints good -> length hi = 10%nat -> Forall (fun b => 128 <= Z_of_byte b) hi ->
+  exists e, parse_into sc o (pre ++ tag ++ lb ++ d ++ post) = Err e.
+Proof. exact (fun sc o pre tag lb d post nw f good hi rest Wp Rt Hn Hw Rl => packed_varint_overlong_i sc pre tag lb d post nw f Wp Rt Hn Hw Rl o good hi rest). Qed.
+Print Assumptions C17_packed_varint_overlong_into.
+
+(* both are instances of: the payload is not a concatenation of varints of at most ten bytes each *)
+Theorem C17_packed_varint_invalid : forall sc c pre tag lb d post nw f,
+  wrecs pre -> VarintRep nw tag -> tag_num nw <> 0 -> tag_wt nw = 2 -> VarintRep (Zlength d) lb ->
+  known_fit sc c nw = Some f -> tmem (fty f) WIRE_VARINT_TYPES = true -> ~ varints d ->
+  exists e, parse sc c (pre ++ tag ++ lb ++ d ++ post) = Err e.
+Proof. exact (fun sc c pre tag lb d post nw f Wp Rt Hn Hw Rl => packed_varint_invalid_i sc pre tag lb d post nw f Wp Rt Hn Hw Rl (new sc c)). Qed.
+Print Assumptions C17_packed_varint_invalid.
+
+(* (3) the payload of a record of a message-typed field - [nested_cls f = Some c']: the declared class of a plain /
+       optional / oneof-member / repeated message field, the synthetic Entry class of a map field, the bundled
+       Timestamp / Duration / wrapper class - is rejected by the parser of that class: the outer parse raises *)
+Theorem C17_nested_malformed : forall sc c pre tag lb d post nw f c' e',
+  wrecs pre -> VarintRep nw tag -> tag_num nw <> 0 -> tag_wt nw = 2 -> VarintRep (Zlength d) lb ->
+  known_fit sc c nw = Some f -> nested_cls f = Some c' -> parse sc c' d = Err e' ->
+  exists e, parse sc c (pre ++ tag ++ lb ++ d ++ post) = Err e.
+Proof. exact (fun sc c pre tag lb d post nw f c' e' Wp Rt Hn Hw Rl Hk => nested_malformed_into sc (new sc c) pre tag lb d post nw f Wp Rt Hn Hw Rl Hk c' e'). Qed.
+Print Assumptions C17_nested_malformed.
+
+Theorem C17_nested_malformed_into : forall sc o pre tag lb d post nw f c' e',
+  wrecs pre -> VarintRep nw tag -> tag_num nw <> 0 -> tag_wt nw = 2 -> VarintRep (Zlength d) lb ->
+  known_fit sc (ocls o) nw = Some f -> nested_cls f = Some c' -> parse sc c' d = Err e' ->
+  exists e, parse_into sc o (pre ++ tag ++ lb ++ d ++ post) = Err e.
+Proof. exact (fun sc o pre tag lb d post nw f c' e' Wp Rt Hn Hw Rl Hk => nested_malformed_into sc o pre tag lb d post nw f Wp Rt Hn Hw Rl Hk c' e'). Qed.
+Print Assumptions C17_nested_malformed_into.
+
+(* ... at any depth: [nests sc c bs c0 d0] = d0 is reached from bs through any number of such records (a map VALUE
+   is two levels: the entry record, then field 2 of the Entry class) *)
+Theorem C17_nested_malformed_deep : forall sc c bs c0 d0 e0,
+  nests sc c bs c0 d0 -> parse sc c0 d0 = Err e0 -> exists e, parse sc c bs = Err e.
+Proof. exact nests_rejected. Qed.
+Print Assumptions C17_nested_malformed_deep.
+
+(* (4) a string field (a map key / value and StringValue are string fields of the Entry / wrapper class: combine with (3))
+       whose payload the model's UTF-8 decoder (Model/Utf8.v [utf8_valid]) rejects *)
+Theorem C17_bad_utf8 : forall sc c pre tag lb d post nw f,
+  wrecs pre -> VarintRep nw tag -> tag_num nw <> 0 -> tag_wt nw = 2 -> VarintRep (Zlength d) lb ->
+  known_fit sc c nw = Some f -> fty f = TString -> utf8_valid d = false ->
+  exists e, parse sc c (pre ++ tag ++ lb ++ d ++ post) = Err e.
+Proof. exact (fun sc c pre tag lb d post nw f Wp Rt Hn Hw Rl Hk => bad_utf8_into sc (new sc c) pre tag lb d post nw f Wp Rt Hn Hw Rl Hk). Qed.
+Print Assumptions C17_bad_utf8.
+
+Theorem C17_bad_utf8_into : forall sc o pre tag lb d post nw f,
+  wrecs pre -> VarintRep nw tag -> tag_num nw <> 0 -> tag_wt nw = 2 -> VarintRep (Zlength d) lb ->
+  known_fit sc (ocls o) nw = Some f -> fty f = TString -> utf8_valid d = false ->
+  exists e, parse_into sc o (pre ++ tag ++ lb ++ d ++ post) = Err e.
+Proof. exact (fun sc o pre tag lb d post nw f Wp Rt Hn Hw Rl Hk => bad_utf8_into sc o pre tag lb d post nw f Wp Rt Hn Hw Rl Hk). Qed.
+Print Assumptions C17_bad_utf8_into.
+
+(* (5) the exact acceptance criterion, every field kind, every depth: parse returns a message exactly for the
+       [valid] byte strings.  The Timestamp / Duration leaf ([time_range]: inside datetime's / timedelta's range,
+       OverflowError otherwise) is stated on the (seconds, nanos) the model's own decoder reads from the payload. *)
+Theorem C17_accept_iff : forall sc, wf_schema sc = true -> has_builtins sc -> entries_agree sc = true ->
+  forall c bs, (exists m, parse sc c bs = Ok m) <-> valid sc c bs.
+Proof. exact accept_iff. Qed.
+Print Assumptions C17_accept_iff.
+
+Theorem C17_accept_iff_into : forall sc, wf_schema sc = true -> has_builtins sc -> entries_agree sc = true ->
+  forall o bs, well_typed sc o = true -> ((exists m, parse_into sc o bs = Ok m) <-> valid sc (ocls o) bs).
+Proof. exact accept_iff_into. Qed.
+Print Assumptions C17_accept_iff_into.
+
+Theorem C17_invalid_rejected : forall sc c bs, wf_schema sc = true -> has_builtins sc -> entries_agree sc = true ->
+  ~ valid sc c bs -> exists e, parse sc c bs = Err e.
+Proof. exact invalid_rejected. Qed.
+Print Assumptions C17_invalid_rejected.
+
+(* valid strings are concatenations of complete records of Model/C17Wire.v *)
+Theorem C17_valid_complete_records : forall sc c bs, valid sc c bs -> wrecs bs.
+Proof. exact valid_wrecs. Qed.
+Print Assumptions C17_valid_complete_records.
+
+Theorem C17_valid_decidable : forall sc c bs, wf_schema sc = true -> has_builtins sc -> entries_agree sc = true ->
+  valid sc c bs \/ ~ valid sc c bs.
+Proof. exact valid_decidable. Qed.
+Print Assumptions C17_valid_decidable.
+
+(* ---- the Timestamp / Duration leaf without the decoder (Model/C17NestedTime.v): the (seconds, nanos) parse reads from a
+        payload of the bundled classes are the int64 / int32 readings of the LAST varint record of field 1 / field 2
+        ([last_varint]: a relation over the record specification only; 0 when there is none) ---- *)
+Theorem C17_time_numbers : forall sc d s n,
+  has_builtins sc -> last_varint 1 d 0 s -> last_varint 2 d 0 n ->
+  time_numbers sc timestamp_cls d = Some (sign_recover 64 s, sign_recover 32 n) /\
+  time_numbers sc duration_cls d = Some (sign_recover 64 s, sign_recover 32 n).
+Proof. exact time_numbers_builtin. Qed.
+Print Assumptions C17_time_numbers.
+
+Theorem C17_last_varint_total : forall num bs, wrecs bs -> forall z, exists z', last_varint num bs z z'.
+Proof. exact last_varint_total. Qed.
+Print Assumptions C17_last_varint_total.
+
+Theorem C17_timestamp_range_exact : forall sc d, wf_schema sc = true -> has_builtins sc -> entries_agree sc = true ->
+  (ts_range sc d = true <-> ts_range_spec d).
+Proof. exact ts_range_iff. Qed.
+Print Assumptions C17_timestamp_range_exact.
+
+Theorem C17_duration_range_exact : forall sc d, wf_schema sc = true -> has_builtins sc -> entries_agree sc = true ->
+  (dur_range sc d = true <-> dur_range_spec d).
+Proof. exact dur_range_iff. Qed.
+Print Assumptions C17_duration_range_exact.
+
+(* hence the acceptance criterion with nothing of the decoder left in it: [valid_s] is [valid] with the range leaf
+   stated on the records ([ts_range_spec] / [dur_range_spec]) *)
+Theorem C17_valid_spec_iff : forall sc, wf_schema sc = true -> has_builtins sc -> entries_agree sc = true ->
+  forall c bs, valid sc c bs <-> valid_s sc c bs.
+Proof. exact valid_s_iff. Qed.
+Print Assumptions C17_valid_spec_iff.
+
+Theorem C17_accept_iff_spec : forall sc, wf_schema sc = true -> has_builtins sc -> entries_agree sc = true ->
+  forall c bs, (exists m, parse sc c bs = Ok m) <-> valid_s sc c bs.
+Proof. exact accept_iff_spec. Qed.
+Print Assumptions C17_accept_iff_spec.
+
+(* ================= non-vacuity, below the top level ================= *)
+(* ex_sc plus class 13: p repeated fixed32 = 1; q repeated double = 2; s StringValue = 3; m map<string, string> = 4 (entry class 14);
+   d Duration = 5; b repeated bool = 6; r repeated class 11 = 7 *)
+Definition ex_sc2 : schema :=
+  mkS (classes ex_sc ++
+       [mkC [mkF [x70] 1 TFixed32 None None None false (HList PyInt) 0;
+             mkF [x71] 2 TDouble None None None false (HList PyFloat) 0;
+             mkF [x73] 3 TMessage None None (Some TString) false (HOptional PyStr) 0;
+             mkF [x6d] 4 TMap (Some (TString, TString)) None None false (HDict PyStr PyStr) 14;
+             mkF [x64] 5 TMessage None None None false (HPlain PyTimedelta) 0;
+             mkF [x62] 6 TBool None None None false (HList PyBool) 0;
+             mkF [x72] 7 TMessage None None None false (HList (PyMsg 11)) 0] 0;
+        mkC [mkF [x6b] 1 TString None None None false (HPlain PyStr) 0;
+             mkF [x76] 2 TString None None None false (HPlain PyStr) 0] 0]) [].
+
+Example C17_schema2_side_conditions : wf_schema ex_sc2 = true /\ entries_agree ex_sc2 = true /\ has_builtins ex_sc2.
+Proof. split; [vm_compute; reflexivity|]. split; [vm_compute; reflexivity|]. eexists. reflexivity. Qed.
+
+(* the complete foreign record 38 01 (a varint on the repeated-message field 7 of class 13) used as [pre] / [post] *)
+Example C17_pre_record : wrecs [x38; x01].
+Proof. apply (WCons 56 [x38] [x01] []); [vrep | apply (PVarint 56 1); try (cbn; lia); vrep | constructor]. Qed.
+
+(* (1) five bytes on the repeated fixed32 field, nine on the repeated double field; four bytes are accepted *)
+Example C17_packed_ragged_nonvacuous :
+  (exists f, known_fit ex_sc2 13 10 = Some f /\ fixed_width (fty f) = Some 4 /\
+             VarintRep 10 [x0a] /\ tag_num 10 <> 0 /\ tag_wt 10 = 2 /\
+             VarintRep (Zlength [x01; x00; x00; x00; x02]) [x05] /\ Zlength [x01; x00; x00; x00; x02] mod 4 <> 0) /\
+  parse ex_sc2 13 ([x38; x01] ++ [x0a] ++ [x05] ++ [x01; x00; x00; x00; x02] ++ [x38; x01]) = Err EStruct /\
+  (exists f, known_fit ex_sc2 13 18 = Some f /\ fixed_width (fty f) = Some 8) /\
+  parse ex_sc2 13 [x12; x09; x01; x00; x00; x00; x00; x00; x00; x00; x00] = Err EStruct /\
+  parse ex_sc2 13 ([x38; x01] ++ [x0a] ++ [x04] ++ [x01; x00; x00; x00] ++ [x38; x01]) =
+  Ok (Obj 13 [PList [PInt 1]; PPlaceholder; PPlaceholder; PPlaceholder; PPlaceholder; PPlaceholder; PPlaceholder] true
+          [x38; x01; x38; x01] []).
+Proof.
+  split. { eexists. split; [vm_compute; reflexivity|]. split; [reflexivity|]. split; [vrep|].
+           split; [cbn; lia|]. split; [reflexivity|]. split; [vrep | vm_compute; discriminate]. }
+  split; [vm_compute; reflexivity|].
+  split. { eexists. split; [vm_compute; reflexivity | reflexivity]. }
+  split; vm_compute; reflexivity.
+Qed.
+
+(* (2) the repeated sint64 field 6 of class 11: 01 then AC without its second byte; 01 then eleven bytes FF..FF 01;
+       the ten-byte neighbour FF x 9, 01 is accepted *)
+Example C17_varints_example : varints [x01; xac; x02].
+Proof. apply (VsCons 1 [x01] [xac; x02]); [vrep|]. apply (VsCons 300 [xac; x02] []); [vrep | constructor]. Qed.
+
+Example C17_packed_varint_cut_nonvacuous :
+  (exists f, known_fit ex_sc 11 50 = Some f /\ tmem (fty f) WIRE_VARINT_TYPES = true) /\
+  varints [x01] /\ VarintRep 300 [xac; x02] /\ [xac; x02] = [xac] ++ [x02] /\
+  VarintRep (Zlength ([x01] ++ [xac])) [x02] /\
+  parse ex_sc 11 ([x32] ++ [x02] ++ ([x01] ++ [xac])) = Err EEof.
+Proof.
+  split. { eexists. split; vm_compute; reflexivity. }
+  split. { apply (VsCons 1 [x01] []); [vrep | constructor]. }
+  split; [vrep|]. split; [reflexivity|]. split; [vrep | vm_compute; reflexivity].
+Qed.
+
+Example C17_packed_varint_overlong_nonvacuous :
+  Forall (fun b => 128 <= Z_of_byte b) [xff; xff; xff; xff; xff; xff; xff; xff; xff; xff] /\
+  VarintRep (Zlength ([x01] ++ [xff; xff; xff; xff; xff; xff; xff; xff; xff; xff] ++ [x01])) [x0c] /\
+  parse ex_sc 11 ([x32] ++ [x0c] ++ ([x01] ++ [xff; xff; xff; xff; xff; xff; xff; xff; xff; xff] ++ [x01])) = Err ETooLong /\
+  parse ex_sc 11 ([x32] ++ [x0b] ++ ([x01] ++ [xff; xff; xff; xff; xff; xff; xff; xff; xff] ++ [x01])) =
+  Ok (Obj 11 [PPlaceholder; PPlaceholder; PPlaceholder; PNone; PPlaceholder; PList [PInt (-1); PInt (- 2 ^ 63)]; PPlaceholder;
+              PPlaceholder; PPlaceholder; PPlaceholder; PPlaceholder] true [] [None]).
+Proof.
+  split; [repeat constructor; cbn; lia|]. split; [vrep|]. split; vm_compute; reflexivity.
+Qed.
+
+(* (3) the string field of the nested class cut short: directly in field 3 (rec), in a repeated element, in a map VALUE
+       (two levels), in the Int32Value wrapper field 10, the Timestamp field 11, the Duration field 5 of class 13 *)
+Example C17_nested_malformed_nonvacuous :
+  parse ex_sc 11 [x12; x05; x41] = Err EEof /\
+  (exists f, known_fit ex_sc 11 26 = Some f /\ nested_cls f = Some 11%nat) /\
+  parse ex_sc 11 ([x08; x05] ++ [x1a] ++ [x03] ++ [x12; x05; x41] ++ [x08; x07]) = Err EEof /\
+  (exists f, known_fit ex_sc2 13 58 = Some f /\ nested_cls f = Some 11%nat) /\
+  parse ex_sc2 13 [x3a; x03; x12; x05; x41] = Err EEof /\
+  (exists f, known_fit ex_sc 11 82 = Some f /\ nested_cls f = Some 6%nat) /\
+  parse ex_sc 6 [x08] = Err EEof /\ parse ex_sc 11 [x52; x01; x08] = Err EEof /\
+  (exists f, known_fit ex_sc 11 90 = Some f /\ nested_cls f = Some 0%nat) /\
+  parse ex_sc 0 [x08] = Err EEof /\ parse ex_sc 11 [x5a; x01; x08] = Err EEof /\
+  (exists f, known_fit ex_sc2 13 42 = Some f /\ nested_cls f = Some 1%nat) /\
+  parse ex_sc2 13 [x2a; x01; x08] = Err EEof.
+Proof.
+  repeat match goal with
+         | |- _ /\ _ => split
+         | |- exists f, _ => eexists; split; vm_compute; reflexivity
+         | |- _ = _ => vm_compute; reflexivity
+         end.
+Qed.
+
+(* the map VALUE, two levels below class 11: entry record 3A 08 { key "k"; value record 12 03 { 12 05 41 } } *)
+Example C17_nests_map_value :
+  nests ex_sc 11 [x3a; x08; x0a; x01; x6b; x12; x03; x12; x05; x41] 11 [x12; x05; x41] /\
+  parse ex_sc 11 [x3a; x08; x0a; x01; x6b; x12; x03; x12; x05; x41] = Err EEof.
+Proof.
+  split; [|vm_compute; reflexivity].
+  eapply (NStep ex_sc 11 [] 58 [x3a] [x08] [x0a; x01; x6b; x12; x03; x12; x05; x41] [] _ 12 11 [x12; x05; x41]);
+    [constructor | vrep | cbn; lia | reflexivity | vrep | vm_compute; reflexivity | reflexivity|].
+  eapply (NStep ex_sc 12 [x0a; x01; x6b] 18 [x12] [x03] [x12; x05; x41] [] _ 11 11 [x12; x05; x41]);
+    [ | vrep | cbn; lia | reflexivity | vrep | vm_compute; reflexivity | reflexivity | constructor].
+  apply (WCons 10 [x0a] [x01; x6b] []); [vrep | | constructor].
+  apply (PLen 10 [x01] [x6b]); try (cbn; lia). vrep.
+Qed.
+
+(* (4) FF is not UTF-8: the string field 2 of class 11, a map key (class 11 field 7), a map value and the StringValue
+       wrapper (class 13 fields 4 and 3); E2 82 is a three-byte sequence cut after two bytes *)
+Example C17_bad_utf8_nonvacuous :
+  (exists f, known_fit ex_sc 11 18 = Some f /\ fty f = TString) /\ utf8_valid [xff] = false /\
+  parse ex_sc 11 ([x08; x05] ++ [x12] ++ [x01] ++ [xff] ++ [x08; x07]) = Err EUnicode /\
+  parse ex_sc 11 [x3a; x03; x0a; x01; xff] = Err EUnicode /\
+  parse ex_sc2 13 [x22; x05; x12; x03; xe2; x82; x41] = Err EUnicode /\
+  parse ex_sc2 13 [x1a; x03; x0a; x01; xff] = Err EUnicode /\
+  parse ex_sc 11 [x12; x02; xc3; xa9] =
+  Ok (Obj 11 [PPlaceholder; PStr [xc3; xa9]; PPlaceholder; PNone; PPlaceholder; PPlaceholder; PPlaceholder;
+              PPlaceholder; PPlaceholder; PPlaceholder; PPlaceholder] true [] [None]).
+Proof.
+  split. { eexists. split; vm_compute; reflexivity. }
+  repeat split; vm_compute; reflexivity.
+Qed.
+
+(* (5) a derivation of [valid] built by hand from the specification alone: x = 5; rec { x = 5 }; packed r = [-1, 150] *)
+Example C17_valid_example : valid ex_sc 11 [x08; x05; x1a; x02; x08; x05; x32; x03; x01; xac; x02].
+Proof.
+  assert (V5 : valid ex_sc 11 [x08; x05]).
+  { apply (VOther ex_sc 11 8 [x08] [x05] []); [vrep | apply (PVarint 8 5); try (cbn; lia); vrep | right; cbn; lia | constructor]. }
+  apply (VOther ex_sc 11 8 [x08] [x05] [x1a; x02; x08; x05; x32; x03; x01; xac; x02]);
+    [vrep | apply (PVarint 8 5); try (cbn; lia); vrep | right; cbn; lia|].
+  eapply (VLen ex_sc 11 26 [x1a] [x02] [x08; x05] [x32; x03; x01; xac; x02]);
+    [vrep | cbn; lia | reflexivity | vrep | vm_compute; reflexivity | |].
+  { apply (CNested _ _ _ _ 11%nat); [reflexivity | exact V5 | reflexivity]. }
+  eapply (VLen ex_sc 11 50 [x32] [x03] [x01; xac; x02] []);
+    [vrep | cbn; lia | reflexivity | vrep | vm_compute; reflexivity | | constructor].
+  apply CVarints; [reflexivity | reflexivity | exact C17_varints_example].
+Qed.
+
+(* ... the theorem turns it into acceptance, and the full example message of the top-level section is valid *)
+Example C17_accept_nonvacuous :
+  (exists m, parse ex_sc 11 [x08; x05; x1a; x02; x08; x05; x32; x03; x01; xac; x02] = Ok m) /\ valid ex_sc 11 ex_bytes.
+Proof.
+  destruct C17_schema_side_conditions as (W & E & B).
+  split; [apply (C17_accept_iff ex_sc W B E); exact C17_valid_example|].
+  apply (C17_accept_iff ex_sc W B E). eexists. exact (proj1 C17_welltyped_nonvacuous).
+Qed.
+
+(* [valid] discriminates: the ragged / cut / non-UTF-8 strings above are not valid *)
+Example C17_valid_discriminates :
+  ~ valid ex_sc 11 [x12; x01; xff] /\ ~ valid ex_sc 11 [x32; x02; x01; xac] /\
+  ~ valid ex_sc2 13 [x0a; x05; x01; x00; x00; x00; x02] /\
+  ~ valid ex_sc 11 [x3a; x08; x0a; x01; x6b; x12; x03; x12; x05; x41].
+Proof.
+  destruct C17_schema_side_conditions as (W & E & B). destruct C17_schema2_side_conditions as (W2 & E2 & B2).
+  repeat split; intros V;
+    [apply (C17_accept_iff ex_sc W B E) in V | apply (C17_accept_iff ex_sc W B E) in V |
+     apply (C17_accept_iff ex_sc2 W2 B2 E2) in V | apply (C17_accept_iff ex_sc W B E) in V];
+    destruct V as [m Hm]; vm_compute in Hm; discriminate Hm.
+Qed.
+
+(* Timestamp beyond datetime.max: the nested Timestamp payload 08 <2^62> is valid for the Timestamp class, the field is not:
+   OverflowError.  The same seconds in the Duration field of class 13. *)
+Example C17_time_range_nonvacuous :
+  (exists m, parse ex_sc 0 [x08; x80; x80; x80; x80; x80; x80; x80; x80; x40] = Ok m) /\
+  ts_range ex_sc [x08; x80; x80; x80; x80; x80; x80; x80; x80; x40] = false /\ ts_range ex_sc [x08; x01] = true /\
+  parse ex_sc 11 [x5a; x0a; x08; x80; x80; x80; x80; x80; x80; x80; x80; x40] = Err EOverflow /\
+  parse ex_sc2 13 [x2a; x0a; x08; x80; x80; x80; x80; x80; x80; x80; x80; x40] = Err EOverflow /\
+  parse ex_sc 11 [x5a; x02; x08; x01] =
+  Ok (Obj 11 [PPlaceholder; PPlaceholder; PPlaceholder; PNone; PPlaceholder; PPlaceholder; PPlaceholder;
+              PPlaceholder; PPlaceholder; PPlaceholder; PDatetime 1000000] true [] [None]).
+Proof. split; [eexists; vm_compute; reflexivity|]. repeat split; vm_compute; reflexivity. Qed.
+
+(* the two numbers of  08 01 10 02 08 03 : seconds = 3 (the last record of field 1 wins), nanos = 2 *)
+Example C17_last_varint_example :
+  last_varint 1 [x08; x01; x10; x02; x08; x03] 0 3 /\ last_varint 2 [x08; x01; x10; x02; x08; x03] 0 2 /\
+  time_numbers ex_sc timestamp_cls [x08; x01; x10; x02; x08; x03] = Some (3, 2) /\
+  ts_range_spec [x08; x01] /\ valid_s ex_sc 11 [x5a; x02; x08; x01].
+Proof.
+  assert (P1 : wpayload 8 [x01]) by (apply (PVarint 8 1); try (cbn; lia); vrep).
+  assert (P2 : wpayload 16 [x02]) by (apply (PVarint 16 2); try (cbn; lia); vrep).
+  assert (P3 : wpayload 8 [x03]) by (apply (PVarint 8 3); try (cbn; lia); vrep).
+  split.
+  { apply (LHit 1 8 [x08] 1 [x01] [x10; x02; x08; x03]); [vrep | reflexivity | reflexivity | vrep|].
+    apply (LMiss 1 16 [x10] [x02] [x08; x03]); [vrep | exact P2 | left; cbn; lia|].
+    apply (LHit 1 8 [x08] 3 [x03] []); [vrep | reflexivity | reflexivity | vrep | constructor]. }
+  split.
+  { apply (LMiss 2 8 [x08] [x01] [x10; x02; x08; x03]); [vrep | exact P1 | left; cbn; lia|].
+    apply (LHit 2 16 [x10] 2 [x02] [x08; x03]); [vrep | reflexivity | reflexivity | vrep|].
+    apply (LMiss 2 8 [x08] [x03] []); [vrep | exact P3 | left; cbn; lia | constructor]. }
+  split; [vm_compute; reflexivity|].
+  assert (T : ts_range_spec [x08; x01]).
+  { exists 1, 0. split; [|split; [|vm_compute; reflexivity]].
+    - apply (LHit 1 8 [x08] 1 [x01] []); [vrep | reflexivity | reflexivity | vrep | constructor].
+    - apply (LMiss 2 8 [x08] [x01] []); [vrep | exact P1 | left; cbn; lia | constructor]. }
+  split; [exact T|].
+  eapply (SLen ex_sc 11 90 [x5a] [x02] [x08; x01] []);
+    [vrep | cbn; lia | reflexivity | vrep | vm_compute; reflexivity | | constructor].
+  apply (SNested _ _ _ 0%nat); [reflexivity | | exact T].
+  apply (SOther ex_sc 0 8 [x08] [x01] []); [vrep | exact P1 | right; cbn; lia | constructor].
+Qed.
